@@ -114,16 +114,36 @@ def generate(tier, seed):
             if not second:
                 mk = sorted(int(v) for v in rng.choice(nt, size=int(rng.integers(1, nt + 1)), replace=False))
                 seqs.append([['adapt', mk], ['refine', 1]])
+        # the same object used twice: an earlier operation (result discarded) must not influence the refinement
+        if kind in ('line', 'tri', 'tet') and not second and nt <= 8:
+            mk = sorted(int(v) for v in rng.choice(nt, size=int(rng.integers(1, nt + 1)), replace=False))
+            seqs.append([['side', ['facets', 0]], ['side', ['adapt', mk]], ['refine', 1]])
+        if not second and nt <= 8 and not three:
+            seqs.append([['side', ['facets', 0]], ['side', ['refine', 1]], ['refine', 1]])
+        if kind in ('tri', 'tet') and not second:
+            seqs.append([['oriented', 0], ['refine', 1]] + ([['refine', 1]] if kind == 'tri' else []))
+            seqs.append([['side', ['facets', 0]], ['side', ['oriented', 0]], ['refine', 1]])
         for ops in seqs:
             r = dict(base)
             r['ops'] = ops
             recs.append(r)
+        # triangle meshes whose connectivity is NOT ascending (sort_t=False, as produced by oriented() / adaptive
+        # refinement): boundary tags must still follow the facets
+        if kind == 'tri' and not second:
+            t2 = U.apply_local_orders('tri', np.asarray(t), rng)
+            b2 = tagged(kind, cls, p, t2, rng)
+            b2['sort_t'] = False
+            for ops in ([['refine', 1]], [['refine', 2]]):
+                r = dict(b2)
+                r['ops'] = ops
+                recs.append(r)
     return recs
 
 
 def scenario(sid, rec):
     return {'id': sid, 'recipe': rec,
-            'tags': {'cls': rec['cls'], 'kind': rec['kind'], 'ops': '+'.join(o[0] for o in rec['ops'])},
+            'tags': {'cls': rec['cls'], 'kind': rec['kind'], 'ops': '+'.join(o[0] for o in rec['ops']),
+                     'sort_t': str(rec.get('sort_t', True))},
             'events': execute(rec)}
 
 
